@@ -377,8 +377,83 @@ def oracles(ctx, deep):
                     add(Violation("context-window", "context window of slice %d (file with %d slices, context %d%s) is %s, expected %s" % (s, n, c, ", filter %s" % (flt,) if flt else "", got, want), {"files": files, "filter": flt, "context": c, "index": i, "observed": got, "expected": want}, {"kind": "window", "filtered": flt is not None}))
     shutil.rmtree(root, ignore_errors=True)
     runs += _synthetic_oracles(ctx, add, deep)
+    runs += _concat_oracles(ctx, add, deep)
+    runs += _seed_zero_oracles(ctx, add)
     ctx.oracle_runs = runs
     return out
+
+
+def _concat_oracles(ctx, add, deep):
+    """Through dataset concatenation every index (also negative) designates the item of the member that contains it."""
+    from direct.data.datasets import ConcatDataset
+
+    runs = 0
+    rng = ctx.rng
+    for _ in range(ctx.n(120, 1200) * (3 if deep else 1)):
+        sizes = [rng.choice([0, 0, 1, 2, 3, 5]) for _ in range(rng.randint(1, 5))]
+        total = sum(sizes)
+        if total == 0:
+            continue
+        flat = [(m, k) for m, n in enumerate(sizes) for k in range(n)]
+        runs += 1
+        try:
+            cd = ConcatDataset([_Member(t, n) for t, n in enumerate(sizes)])
+            if len(cd) != total:
+                add(Violation("concat-length", "ConcatDataset of member sizes %s has length %d" % (sizes, len(cd)), {"sizes": sizes, "observed": len(cd)}, {"kind": "concat-len"}))
+                continue
+            for idx in range(-total, total):
+                want = flat[idx]
+                try:
+                    got = tuple(int(v) for v in cd[idx])
+                except Exception as e:  # noqa
+                    got = ("raises", type(e).__name__)
+                if got != want:
+                    add(Violation("concat-item", "ConcatDataset(member sizes %s)[%d] is %s, expected item %d of member %d" % (sizes, idx, got, want[1], want[0]), {"sizes": sizes, "index": idx, "observed": list(got), "expected": list(want)}, {"kind": "concat-item", "has_empty_member": 0 in sizes}))
+                    break
+        except Exception as e:  # noqa
+            add(Violation("concat-item", "ConcatDataset(member sizes %s) raises %s" % (sizes, type(e).__name__), {"sizes": sizes}, {"kind": "concat-raises"}))
+    return runs
+
+
+def _seed_zero_oracles(ctx, add):
+    """A per-item seed may legally be 0: the seeded generators must treat it like any other seed."""
+    import numpy as np
+    from direct.data.datasets import FakeMRIBlobsDataset
+    from direct.data.fake import FakeMRIData
+    from direct.data.sens import simulate_sensitivity_maps
+
+    runs = 0
+    for seed in (0, 1, 7):
+        outs = []
+        for g in (3, 99):
+            np.random.seed(g)
+            outs.append(simulate_sensitivity_maps((6, 5), 3, seed=seed))
+        runs += 1
+        if not np.array_equal(outs[0], outs[1]):
+            add(Violation("same-index-twice", "simulate_sensitivity_maps(seed=%d) depends on the global numpy stream" % seed, {"function": "simulate_sensitivity_maps", "seed": seed}, {"dataset": "sens", "kind": "seed-value", "seed_is_zero": seed == 0}))
+        outs = []
+        for g in (3, 99):
+            np.random.seed(g)
+            outs.append(FakeMRIData(ndim=2)(sample_size=1, num_coils=3, spatial_shape=(8, 10), seed=seed)[0]["kspace"])
+        runs += 1
+        if not np.array_equal(outs[0], outs[1]):
+            add(Violation("same-index-twice", "FakeMRIData(seed=%d) depends on the global numpy stream" % seed, {"function": "FakeMRIData.__call__", "seed": seed}, {"dataset": "FakeMRIData", "kind": "seed-value", "seed_is_zero": seed == 0}))
+    # a dataset whose per-item seeds contain 0 (dataset seed 131, 40 items -> item 12), accessed in two different orders
+    try:
+        ds = FakeMRIBlobsDataset(sample_size=40, num_coils=3, spatial_shape=(8, 10), seed=131)
+        zero = [i for i, d in enumerate(ds.data) if int(d[2]) == 0]
+        for i in zero[:1]:
+            np.random.seed(5)
+            a = ds[i]
+            _ = ds[(i + 1) % len(ds)]
+            np.random.seed(77)
+            b = ds[i]
+            runs += 1
+            if not _same(a, b):
+                add(Violation("same-index-twice", "FakeMRIBlobsDataset(seed=131)[%d] (per-item seed 0) differs between two accesses" % i, {"dataset": "FakeMRIBlobsDataset", "seed": 131, "index": i}, {"dataset": "FakeMRIBlobsDataset", "kind": "seed-value", "seed_is_zero": True}))
+    except Exception:
+        pass
+    return runs
 
 
 def _same(a, b):
